@@ -32,6 +32,10 @@ type Case struct {
 	DecodeAs string `json:"decode_as"` // concrete | iface
 	Reuse    bool   `json:"reuse"`     // decode every row into the same record variable instead of a fresh one per row
 	Recs     []Rec  `json:"recs"`
+	// Mixed (layout A only): the rows of one Decoder are read with both calls - row k with DecodeRowFields when bit k%60 of
+	// Mixed is set if the file is otherwise read into structs, with DecodeRow when it is set if the file is otherwise read
+	// by field names
+	Mixed uint64 `json:"mixed,omitempty"`
 }
 
 // ---- record struct families (the struct-based API is reflection driven) ----
@@ -125,6 +129,10 @@ func gen(t *rapid.T) Case {
 	}
 	c.DecodeAs = rapid.SampledFrom([]string{"concrete", "iface", "same"}).Draw(t, "decodeas") // same: the field type the record was written with (differs from concrete for LineString only)
 	c.Reuse = rapid.Bool().Draw(t, "reuse")
+	if c.Layout == "A" && rapid.IntRange(0, 2).Draw(t, "mixedread") == 1 {
+		// one Decoder, both ways of reading a row: alternating, or in a drawn pattern
+		c.Mixed = rapid.OneOf(rapid.Just(uint64(0xAAAAAAAAAAAAAAAA)), rapid.Just(uint64(0x5555555555555555)), rapid.Uint64()).Draw(t, "mixed")
+	}
 	n := rapid.IntRange(0, 8).Draw(t, "nrec")
 	if rapid.IntRange(0, 9).Draw(t, "many") == 0 {
 		n = rapid.IntRange(9, 40).Draw(t, "nrec2")
@@ -196,7 +204,21 @@ func structRT[GE any, GD any](c Case, file string, conv func(vkit.GJ) GE) ([]got
 		}
 		defer d.Close()
 		var shared recA[GD]
-		for {
+		for k := 0; ; k++ {
+			if c.Mixed>>(uint(k)%60)&1 == 1 {
+				// this row through the other call of the same Decoder
+				g, m, more := d.DecodeRowFields("count", "value", "name")
+				if !more {
+					break
+				}
+				n, err1 := strconv.Atoi(strings.TrimSpace(m["count"]))
+				f, err2 := strconv.ParseFloat(strings.TrimSpace(m["value"]), 64)
+				if err1 != nil || err2 != nil {
+					return out, fmt.Sprintf("row %d read with DecodeRowFields between DecodeRow calls: attributes come back as %q", k, m)
+				}
+				out = append(out, got{g: g, i: n, f: f, s: m["name"], rawI: m["count"]})
+				continue
+			}
 			var fresh recA[GD]
 			rec := &fresh
 			if c.Reuse {
@@ -404,7 +426,16 @@ func fieldsRT(c Case, file string) ([]got, string) {
 		names = append(names, n)
 	}
 	var out []got
-	for {
+	for k := 0; ; k++ {
+		if c.Layout == "A" && c.Mixed>>(uint(k)%60)&1 == 1 {
+			// this row through the other call of the same Decoder
+			var rec recA[geom.Geom]
+			if !d.DecodeRow(&rec) {
+				break
+			}
+			out = append(out, got{g: rec.Shape, i: rec.Count, f: rec.Val, s: rec.Name, rawI: strconv.Itoa(rec.Count)})
+			continue
+		}
 		g, m, more := d.DecodeRowFields(names...)
 		if !more {
 			break
@@ -457,6 +488,9 @@ func run(c Case) (v vkit.Verdict) {
 	sharedChecks = nil
 	v.Class("shape_" + c.Shape)
 	v.Class("api_" + c.API + "_" + c.Layout)
+	if c.Mixed != 0 {
+		v.Class("rows_read_with_both_DecodeRow_and_DecodeRowFields")
+	}
 	// records whose integer does not fit the documented 10-character field are outside the domain: the encoder must refuse them
 	fits := true
 	for _, r := range c.Recs {
@@ -583,7 +617,7 @@ func TestProp(t *testing.T) {
 			"unclosed, *Bounds), finite coordinates from bit patterns; attributes: ints within the 10-character field (wider ones must be refused by Encode), float64 " +
 			"|v|<1e18, strings of 0-50 bytes (ASCII, inner blanks, quotes, UTF-8) without NUL and without leading/trailing blanks (not representable in DBF). Both APIs: " +
 			"struct-based with three record layouts (string last with tags, string first untagged with pointer records, two strings with mixed-case tags and names; a fourth layout is written with the field-based API under the Go field names and read into a struct whose tags name no column, so that the match must come from the field name; a fifth layout has tags that are the Go names of other fields, so that the tag has to win over the name; geometry " +
-			"field decoded either as the concrete type or as geom.Geom; rows decoded into a fresh record or into one reused record variable) and field-based (NewEncoderFromFields/EncodeFields/DecodeRowFields, names matched in either case). " +
+			"a third of the layout-A files is read with BOTH calls of one Decoder (DecodeRow and DecodeRowFields row by row in a drawn pattern); field decoded either as the concrete type or as geom.Geom; rows decoded into a fresh record or into one reused record variable) and field-based (NewEncoderFromFields/EncodeFields/DecodeRowFields, names matched in either case). " +
 			"The geometries handed to the encoder have their point lists cut out of one flat array (consecutive sub-slices with spare capacity), which must come back unchanged. Oracle: same number and order of records, coordinates bit-identical with line strings as parts, rings in stored order with unclosed rings closed, boxes as 5-vertex " +
 			"rectangles; ints equal, strings equal, floats within 5.1e-11; Decoder.Error nil. Non-trivial = >=2 records with string attributes of different lengths, or a multi-part geometry. Distinct by case hash.",
 		Assumptions: []string{"strings with leading/trailing blanks are excluded: DBF pads with blanks and the reader trims them", "a LineString is read back into a MultiLineString or geom.Geom field, never into a LineString field"},
